@@ -79,6 +79,8 @@ def valid_cmds(use, s):
 
 CURATED = [# characters excluded from composition: the canonical form is longer than the spelling (by one unit, by two)
            "\u0958", "\u0915\u093c", "k\u0958", "x\u0344", "x\u0308\u0301", "\ufb1d", "\u05d9\u05b4", "\u2adc", "\u0f43", "abcdefghijklmnopqrstuvwxyz\u0958abcdefghijklmnopqrstuvw", "\u0958\u0958",
+           # canonical equivalences among characters added to Unicode after version 3.2 (Balinese 5.0, Kaithi 5.2, Chakma 6.1)
+           "\u1b06", "\u1b05\u1b35", "\u1b08", "\u1b07\u1b35", "\U000110ab", "\U000110a5\U000110ba", "\U0001112e", "\U00011131\U00011127",
            "\ufb03", "ffi", "FFI", "\ufb04", "ffl", "\u00df\u00df", "ssss", "SSSS", "\u1e9e\u00df", "stra\u00dfe\u00df", "STRASSESS", "\u0390\u0390", "a", "A", "é", "É", "É", "ß", "SS", "ss", "ẞ", "İ", "i̇", "I", "ı", "σ", "ς", "Σ", "ͅ", "ι", "ᾳ", "ᾼ", "αι", "ǰ", "ǰ", "ﬁ", "fi", "FI",
            "가", "가", "각", "각", "Å", "Å", "Å", "Ω", "Ω", "q̣̇", "q̣̇", "ạ̈", "ạ̈", "ǆ", "ǅ", "Ǆ", "ŉ", "ʼn", "ΐ", "ΐ", "և", "ԵՒ", "ꭰ", "Ꭰ", "x", "y", "k", "K", "ﬀ", "ff", "㎑", "kHz", "①", "1"]
 
